@@ -236,6 +236,7 @@ func init() {
 		runCase([]string{"D1/", "E1:7/", "C1:1i", "C1:2v"}, 0)                                             // an invalid configuration later corrected (known finding)
 		runCase([]string{"D1/", "C1:1v", "E1:/", "E1:/3", "E1:4/"}, 0)                                     // an update that changes nothing, then the first real one
 		runCase([]string{"D1,2/", "C1:1v", "E1:1/", "D/1", "C1:2v", "E1:5/", "C2:3v", "E2:6b/", "D1/"}, 2) // updates for a removed service
+		runCase([]string{"D1/", "C1:1v", "E1:1/", "C1:2v", "D/1", "D1/", "C1:1v", "E1:1/", "C1:2v"}, 0)   // a service removed and announced again, its configuration rolled back and forward again
 		r := newRng(*fSeed)
 		eps := func(max int) string {
 			var xs []string
@@ -272,6 +273,11 @@ func init() {
 					ops = append(ops, "D"+strings.Join(add, ",")+"/"+strings.Join(rem, ","))
 				case 2, 3:
 					cid++
+					if cid > 3 && r.chance(1, 3) {
+						// back to an earlier version (a rollback): configurations are values, the same one may come again
+						ops = append(ops, fmt.Sprintf("C%d:%dv", n, 2+r.intn(cid-2)))
+						continue
+					}
 					v := "v"
 					if *fTier == "thorough" && r.chance(1, 8) {
 						v = "i"
